@@ -1,11 +1,564 @@
-//! C03 — check not built yet.
-use mc_core::Args;
-use serde_json::Value;
+//! C03 — transaction and block-header wire codecs are faithful and canonical.
+//!
+//! Well-formed side: a shape lattice of transactions for every supported (version, branch) pair,
+//! built from a plain-data description (`spec::TxSpec`), serialised by an independent writer
+//! (`spec::ref_write`), constructed through the public `from_parts` constructors, written, read
+//! back behind a counting reader with trailing sentinel bytes, and compared field by field through
+//! public accessors. Arbitrary-bytes side: everything at distance 1 from those encodings and from
+//! the repository's published vectors (truncation, extension, byte rewrites, count / amount /
+//! flags / branch / version field lattices incl. non-canonical CompactSize forms), judged against
+//! an independent parser (`spec::ref_parse`). Block headers and the CompactSize combinators of
+//! `components/zcash_encoding` get the same treatment.
 
-pub fn replay(_kind: &str, _case: &Value) -> Result<(), String> {
-    Err("C03: check not built".into())
+pub mod gen;
+pub mod header;
+pub mod oracle;
+pub mod pool;
+pub mod real;
+pub mod spec;
+
+use gen::*;
+use mc_core::{Args, Run, Tier};
+use rayon::prelude::*;
+use serde_json::{json, Value};
+use spec::*;
+use std::collections::{BTreeMap, HashSet};
+
+/// One arbitrary-bytes case: (mutation description, how to obtain the bytes from the base).
+type Mutant = (String, Mut);
+
+#[derive(Clone, Debug)]
+enum Mut {
+    Whole(Vec<u8>),
+    Trunc(usize),
+    Ext(usize, u8),
+    Byte(usize, u8),
 }
 
-pub fn run(_args: &Args) -> i32 {
-    mc_core::machinery_error("C03: check not built")
+impl Mut {
+    fn apply(&self, base: &[u8]) -> Vec<u8> {
+        match self {
+            Mut::Whole(v) => v.clone(),
+            Mut::Trunc(l) => base[..*l].to_vec(),
+            Mut::Ext(n, b) => {
+                let mut m = base.to_vec();
+                m.extend(std::iter::repeat(*b).take(*n));
+                m
+            }
+            Mut::Byte(p, v) => {
+                let mut m = base.to_vec();
+                m[*p] = *v;
+                m
+            }
+        }
+    }
+}
+
+fn splice(b: &[u8], off: usize, len: usize, new: &[u8]) -> Vec<u8> {
+    let mut v = Vec::with_capacity(b.len() + new.len());
+    v.extend_from_slice(&b[..off]);
+    v.extend_from_slice(new);
+    v.extend_from_slice(&b[off + len..]);
+    v
+}
+
+fn is_opaque(f: F) -> bool {
+    matches!(
+        f,
+        F::InScript(_) | F::OutScript(_) | F::SpProof(_) | F::SpSig(_) | F::SoEnc(_) | F::SoOut(_) | F::SoProof(_) | F::SapBsig | F::Js(_) | F::JsSig | F::OEnc(..) | F::OOut(..) | F::OProof(_) | F::OSig(..) | F::OBsig(_)
+    )
+}
+
+pub fn amount_lattice() -> Vec<i64> {
+    vec![0, 1, -1, 5, MAX_MONEY - 1, MAX_MONEY, MAX_MONEY + 1, -MAX_MONEY + 1, -MAX_MONEY, -MAX_MONEY - 1, i64::MAX, i64::MIN, 1 << 32, -(1 << 32)]
+}
+
+/// Structured-field lattices: every count / amount / flags / branch / header / group-id field ×
+/// its boundary values.
+fn field_mutants(enc: &[u8], spans: &[Span], all_flags: bool) -> Vec<Mutant> {
+    let mut out = Vec::new();
+    let mut extra: Vec<Mutant> = Vec::new();
+    let header_span = spans.iter().find(|s| s.f == F::Header).copied();
+    for sp in spans {
+        let cur = &enc[sp.off..sp.off + sp.len];
+        let mut push = |desc: String, new: Vec<u8>| {
+            if new != cur {
+                out.push((format!("{:?}={}", sp.f, desc), Mut::Whole(splice(enc, sp.off, sp.len, &new))));
+            }
+        };
+        match sp.f {
+            F::VinCount | F::VoutCount | F::InScriptLen(_) | F::OutScriptLen(_) | F::SapSpendCount | F::SapOutCount | F::JsCount | F::OCount(_) | F::OProofLen(_) => {
+                let curv = ref_compact_value(cur);
+                let mut vals = header::compact_values();
+                vals.push(curv);
+                vals.push(curv + 1);
+                vals.push(curv.saturating_sub(1));
+                vals.sort();
+                vals.dedup();
+                for n in vals {
+                    for form in [1usize, 3, 5, 9] {
+                        if let Some(e) = compact_size_form(n, form) {
+                            push(format!("cs{form}:{n:#x}"), e);
+                        }
+                    }
+                }
+            }
+            F::SapVb | F::OVb(_) | F::OutValue(_) => {
+                for a in amount_lattice() {
+                    push(format!("{a}"), a.to_le_bytes().to_vec());
+                }
+            }
+            F::OFlags(_) => {
+                for f in 0..=255u8 {
+                    // every value, or one value on each side of every bit the grammar inspects
+                    if all_flags || f < 16 || f.count_ones() == 1 || f.count_zeros() <= 1 {
+                        push(format!("{f:#04x}"), vec![f]);
+                    }
+                }
+            }
+            F::Branch => {
+                for (_, b) in BRANCHES {
+                    for d in [0u32, 1, u32::MAX] {
+                        let v = b.wrapping_add(d);
+                        push(format!("{v:#010x}"), v.to_le_bytes().to_vec());
+                    }
+                }
+                push("0xffffffff".into(), u32::MAX.to_le_bytes().to_vec());
+            }
+            F::Header => {
+                for v in [0u32, 1, 2, 3, 4, 5, 6, 7, 0x7fff_ffff] {
+                    for ow in [0u32, 1 << 31] {
+                        push(format!("{:#010x}", v | ow), (v | ow).to_le_bytes().to_vec());
+                    }
+                }
+            }
+            F::GroupId => {
+                for g in [V3_GID, V4_GID, V5_GID, V6_GID] {
+                    for d in [0u32, 1, u32::MAX] {
+                        let v = g.wrapping_add(d);
+                        push(format!("{v:#010x}"), v.to_le_bytes().to_vec());
+                        // the matching header word too (re-interpretation under another version)
+                        if let (Some(h), 0) = (header_span, d) {
+                            let ver = Ver::from_header(0x8000_0000 | [(V3_GID, 3), (V4_GID, 4), (V5_GID, 5), (V6_GID, 6)].iter().find(|x| x.0 == g).unwrap().1, g).unwrap();
+                            let mut m = splice(enc, sp.off, sp.len, &v.to_le_bytes());
+                            m[h.off..h.off + 4].copy_from_slice(&ver.header().to_le_bytes());
+                            if m != enc {
+                                extra.push((format!("Header+GroupId={}", ver.name()), Mut::Whole(m)));
+                            }
+                        }
+                    }
+                }
+                push("0".into(), vec![0; 4]);
+            }
+            F::LockTime | F::Expiry | F::InIndex(_) | F::InSeq(_) => {
+                for v in [0u32, 1, 1 << 31, u32::MAX] {
+                    push(format!("{v:#x}"), v.to_le_bytes().to_vec());
+                }
+            }
+            _ => {}
+        }
+    }
+    out.extend(extra);
+    out
+}
+
+fn ref_compact_value(b: &[u8]) -> u64 {
+    let mut t = [0u8; 8];
+    if b.len() == 1 {
+        b[0] as u64
+    } else {
+        t[..b.len() - 1].copy_from_slice(&b[1..]);
+        u64::from_le_bytes(t)
+    }
+}
+
+/// Byte positions to rewrite. `all`: every byte. Otherwise: every byte of structured fields and,
+/// for opaque fields longer than 8 bytes, the first two, the last two and the ZIP 244 split
+/// points of note ciphertexts.
+fn byte_positions(spans: &[Span], len: usize, all: bool) -> Vec<usize> {
+    if all {
+        return (0..len).collect();
+    }
+    let mut v = Vec::new();
+    for sp in spans {
+        if is_opaque(sp.f) && sp.len > 8 {
+            let mut offs = vec![0, 1, sp.len - 2, sp.len - 1];
+            if matches!(sp.f, F::SoEnc(_) | F::OEnc(..)) {
+                offs.extend([51, 52, 563, 564]);
+            }
+            v.extend(offs.into_iter().map(|o| sp.off + o));
+        } else {
+            v.extend(sp.off..sp.off + sp.len);
+        }
+    }
+    v.sort();
+    v.dedup();
+    v
+}
+
+fn byte_mutants(enc: &[u8], positions: &[usize]) -> Vec<Mutant> {
+    let mut out = Vec::new();
+    for &p in positions {
+        let c = enc[p];
+        let mut seen = vec![c];
+        for (name, n) in [("^1", c ^ 1), ("^80", c ^ 0x80), ("=00", 0u8), ("=ff", 0xff)] {
+            if seen.contains(&n) {
+                continue;
+            }
+            seen.push(n);
+            out.push((format!("byte[{p}]{name}"), Mut::Byte(p, n)));
+        }
+    }
+    out
+}
+
+/// Truncation at every length in `lengths`, and the four extensions.
+fn length_mutants(enc: &[u8], lengths: &[usize]) -> Vec<Mutant> {
+    let mut out: Vec<Mutant> = lengths.iter().filter(|l| **l < enc.len()).map(|l| (format!("trunc[{l}]"), Mut::Trunc(*l))).collect();
+    for (n, fillb) in [(1usize, 0u8), (1, 0xff), (32, 0), (32, 0xff)] {
+        out.push((format!("ext[{n}x{fillb:02x}]"), Mut::Ext(n, fillb)));
+    }
+    out
+}
+
+struct Base {
+    id: String,
+    ext_branch: u32,
+    enc: Vec<u8>,
+    spans: Vec<Span>,
+}
+
+fn base_of(ver: Ver, branch: u32, sh: &Shape) -> Base {
+    let w = ref_write(&make_spec(ver, branch, sh));
+    Base { id: format!("{}@{}/{}", ver.name(), branch_name(branch), sh.id()), ext_branch: branch, enc: w.buf, spans: w.spans }
+}
+
+fn case_json(mode: &str, bytes: &[u8], ext_branch: u32) -> Value {
+    json!({"mode": mode, "hex": hex::encode(bytes), "branch": ext_branch})
+}
+
+fn decide(mode: &str, bytes: &[u8], ext_branch: u32) -> Result<String, String> {
+    match mode {
+        "wf" => oracle::check_wf(bytes, ext_branch),
+        "bytes" => oracle::check_bytes(bytes, ext_branch),
+        "hdr-wf" => header::check_header_wf(bytes),
+        "hdr-bytes" => header::check_header_bytes(bytes),
+        _ => Err(format!("unknown mode {mode}")),
+    }
+}
+
+pub fn replay(kind: &str, case: &Value) -> Result<(), String> {
+    match kind {
+        "tx" | "hdr" => {
+            let b = hex::decode(case["hex"].as_str().unwrap_or("")).map_err(|e| e.to_string())?;
+            decide(case["mode"].as_str().unwrap_or(""), &b, case["branch"].as_u64().unwrap_or(0) as u32).map(|_| ())
+        }
+        "compact" => header::check_compact(case["n"].as_str().and_then(|s| s.parse().ok()).unwrap_or(0), case["form"].as_u64().unwrap_or(1) as usize).map(|_| ()),
+        "optional" => header::check_optional(case["tag"].as_u64().unwrap_or(0) as u8).map(|_| ()),
+        _ => Err(format!("unknown kind {kind}")),
+    }
+}
+
+/// Evaluate a batch of cases against one base; record outcomes and failures.
+fn sweep(run: &Run, kind: &str, mode: &str, base_id: &str, ext_branch: u32, base: &[u8], cases: Vec<Mutant>) {
+    let results: Vec<(u128, Result<String, String>, usize)> = cases
+        .par_iter()
+        .enumerate()
+        .map(|(i, (_, m))| {
+            let bytes = m.apply(base);
+            let r = decide(mode, &bytes, ext_branch);
+            let mut k = bytes;
+            k.extend_from_slice(&ext_branch.to_le_bytes());
+            k.extend_from_slice(mode.as_bytes());
+            (mc_core::key128(&k), r, i)
+        })
+        .collect();
+    let mut seen = HashSet::new();
+    let mut outcomes: BTreeMap<String, u64> = BTreeMap::new();
+    let mut dups = 0u64;
+    for (h, r, i) in results {
+        if !seen.insert(h) {
+            dups += 1;
+            continue;
+        }
+        run.eval(&h.to_le_bytes());
+        match r {
+            Ok(o) => *outcomes.entry(o).or_insert(0) += 1,
+            Err(m) => {
+                *outcomes.entry("VIOLATION".into()).or_insert(0) += 1;
+                let (desc, mu) = &cases[i];
+                run.fail(kind, format!("{base_id}:{desc}"), m, case_json(mode, &mu.apply(base), ext_branch));
+            }
+        }
+    }
+    run.add_evaluations(dups);
+    for (o, n) in outcomes {
+        run.outcome_n(&o, n);
+    }
+}
+
+fn vectors() -> Vec<Base> {
+    use zcash_primitives::transaction::tests::data;
+    let mut raw: Vec<(String, Vec<u8>, u32)> = vec![("vec:tx_read_write".into(), data::tx_read_write::TX_READ_WRITE.to_vec(), 0xe9ff_75a6)];
+    for (i, v) in data::zip_0143::make_test_vectors().into_iter().enumerate() {
+        raw.push((format!("vec:zip143[{i}]"), v.tx, u32::from(v.consensus_branch_id)));
+    }
+    for (i, v) in data::zip_0243::make_test_vectors().into_iter().enumerate() {
+        raw.push((format!("vec:zip243[{i}]"), v.tx, u32::from(v.consensus_branch_id)));
+    }
+    for (i, v) in data::zip_0244::make_test_vectors().into_iter().enumerate() {
+        raw.push((format!("vec:zip244[{i}]"), v.tx, 0xc2d6_d0b4));
+    }
+    raw.into_iter()
+        .map(|(id, enc, br)| {
+            let spans = match ref_parse(&enc, br) {
+                Ok(p) => {
+                    let w = ref_write(&p.spec);
+                    if w.buf == enc {
+                        w.spans
+                    } else {
+                        vec![]
+                    }
+                }
+                Err(_) => vec![],
+            };
+            Base { id, ext_branch: br, enc, spans }
+        })
+        .collect()
+}
+
+fn header_lattice(solution_lens: &[usize]) -> Vec<header::Hdr> {
+    // three symbols per 32-byte field: all zero, all 0xff, filled
+    let h32 = |field: &str, k: usize| -> [u8; 32] {
+        match k {
+            0 => [0; 32],
+            1 => [0xff; 32],
+            _ => pool::fill32(field, 0),
+        }
+    };
+    let mut v = Vec::new();
+    for version in [0i32, 1, 4, -1, i32::MIN, i32::MAX] {
+        for prev in 0..3 {
+            for merkle in 0..3 {
+                for root in 0..3 {
+                    for time in [0u32, 1, 1 << 31, u32::MAX] {
+                        for bits in [0u32, 1, 1 << 31, u32::MAX] {
+                            for nonce in 0..3 {
+                                for &sl in solution_lens {
+                                    v.push(header::Hdr {
+                                        version,
+                                        prev: h32("hdr-prev", prev),
+                                        merkle: h32("hdr-merkle", merkle),
+                                        sapling_root: h32("hdr-root", root),
+                                        time,
+                                        bits,
+                                        nonce: h32("hdr-nonce", nonce),
+                                        solution: pool::fill("sol", sl, sl),
+                                    });
+                                }
+                            }
+                        }
+                    }
+                }
+            }
+        }
+    }
+    v
+}
+
+pub fn run(args: &Args) -> i32 {
+    let run = Run::new(args, "exploration");
+    let thorough = args.tier == Tier::Thorough;
+    run.set_rule(
+        "well-formed: every shape of the {0,1,2}^k count lattice (vin, vout, Sapling spends/outputs, Orchard actions, Ironwood actions) for every \
+         supported (version, branch) pair, plus scalar shapes (lock_time x expiry on {0,1,2^31,2^32-1}, value balances and output values on the \
+         MAX_MONEY lattice, script lengths and vin/vout counts at 252/253, flag bytes, distinct v4 anchors, free proof lengths); arbitrary bytes: \
+         truncation lengths and byte rewrites {^1,^0x80,=0,=0xff} at every position (thorough; quick: every position of structured fields, and the \
+         first/last two bytes and ZIP 244 split points of opaque fields), extension by 1/32 bytes, and every count/amount/flags/branch/header/group-id \
+         field x its boundary lattice (all four CompactSize forms, canonical or not) applied to base encodings and to the published vectors; block \
+         headers: 7 fields on boundary values x solution lengths {0,1,252,253,1344}; direct CompactSize/Vector/Optional lattice. A case is distinct \
+         by (input bytes, branch, oracle); non-trivial because it differs from every other input by at least one byte",
+    );
+    run.assume("the pool of valid group/field element encodings comes from the crates' proptest strategies under proptest's deterministic runner (value source only)");
+    run.assume("'never reads past what it reports as consumed': the reader position after read() must equal the length of the value's own serialisation, and trailing sentinel bytes must stay unread");
+    run.assume("accepted arbitrary bytes must equal the canonical serialisation of the parsed value (implied by equal txid for v1-v4; checked for v5/v6 as the canonical-codec reading of the title)");
+    run.assume("registry zcash_encoding 0.4 (used by the transaction parser) is exercised only through Transaction::read; the direct lattice runs on components/zcash_encoding");
+    let p = pool::pool();
+    run.require(p.min_len() >= pool::POOL_MIN - 2, "value pool too small");
+    run.section("pool_sizes", json!({"min": p.min_len(), "sapling_cv": p.sap_cv.len(), "orchard_rk": p.orch_rk.len()}));
+
+    let mut phases: Vec<(String, f64)> = Vec::new();
+    let mut t0 = run.elapsed();
+    let mut phase = |name: &str, run: &Run| {
+        let t = run.elapsed();
+        phases.push((name.to_string(), t - t0));
+        t0 = t;
+    };
+
+    // ---- well-formed side -------------------------------------------------------------------
+    let pairs = pairs();
+    let wf_cases: u64 = pairs
+        .par_iter()
+        .map(|(ver, branch)| {
+            let mut shapes = count_lattice(*ver, 2);
+            shapes.extend(scalar_shapes(*ver, *branch, thorough));
+            let cases: Vec<Mutant> = shapes.iter().map(|sh| (sh.id(), Mut::Whole(ref_write(&make_spec(*ver, *branch, sh)).buf))).collect();
+            let n = cases.len() as u64;
+            sweep(&run, "tx", "wf", &format!("wf:{}@{}", ver.name(), branch_name(*branch)), *branch, &[], cases);
+            n
+        })
+        .sum();
+    run.sample(json!({"mode": "wf", "pair": "v6@Nu6_3", "shape": Shape::base(2, 2, 2, 2, 2, 2).id(), "bytes": ref_write(&make_spec(Ver::V6, 0x37a5_165b, &Shape::base(2, 2, 2, 2, 2, 2))).buf.len()}));
+    run.section("wellformed_cases", json!(wf_cases));
+    run.section("pairs", json!(pairs.iter().map(|(v, b)| format!("{}@{}", v.name(), branch_name(*b))).collect::<Vec<_>>()));
+    phase("wellformed", &run);
+
+    // ---- arbitrary bytes: structured-field lattices -------------------------------------------
+    // one or two branches per version for the count lattice; two shapes for every other pair
+    let rep_pairs: Vec<(Ver, u32)> = vec![(Ver::Sprout(1), 0), (Ver::Sprout(2), 0), (Ver::V3, 0x5ba8_1b19), (Ver::V4, 0xe9ff_75a6), (Ver::V5, 0xc2d6_d0b4), (Ver::V5, 0x37a5_165b), (Ver::V6, 0x37a5_165b)];
+    let mut field_bases: Vec<Base> = Vec::new();
+    for (ver, branch) in &rep_pairs {
+        for sh in count_lattice(*ver, 2) {
+            let counts = [sh.vin, sh.vout, sh.spends, sh.outputs, sh.orchard, sh.ironwood];
+            let twos = counts.iter().filter(|c| **c == 2).count();
+            // quick: shapes over {0,1} and shapes over {0,2}
+            let full = thorough && !(*ver == Ver::V5 && *branch == 0x37a5_165b);
+            if full || twos == 0 || counts.iter().all(|c| *c == 2 || *c == 0) {
+                field_bases.push(base_of(*ver, *branch, &sh));
+            }
+        }
+    }
+    for (ver, branch) in &pairs {
+        if !rep_pairs.contains(&(*ver, *branch)) {
+            field_bases.push(base_of(*ver, *branch, &Shape::base(1, 1, 1, 1, 1, 1)));
+            field_bases.push(base_of(*ver, *branch, &Shape::base(1, 0, 0, 0, 0, 0)));
+        }
+    }
+    run.section("field_lattice_bases", json!(field_bases.len()));
+    let cap = args.tier.pick(45.0, 420.0);
+    let skipped = std::sync::atomic::AtomicUsize::new(0);
+    field_bases.par_iter().for_each(|b| {
+        if run.elapsed() > cap {
+            skipped.fetch_add(1, std::sync::atomic::Ordering::Relaxed);
+            return;
+        }
+        let all_flags = thorough || b.id.contains("in1,out1,sp1,so1,or1,ir1");
+        sweep(&run, "tx", "bytes", &b.id, b.ext_branch, &b.enc, field_mutants(&b.enc, &b.spans, all_flags));
+    });
+    let sk = skipped.load(std::sync::atomic::Ordering::Relaxed);
+    if sk > 0 {
+        run.cap_hit(&format!("wall cap {cap}s: structured-field lattices skipped for {sk}/{} bases", field_bases.len()));
+    }
+    run.sample(json!({"mode": "bytes", "base": "v4@Canopy/in1,out0,sp0,so0,or0,ir0", "mutation": "SapVb=5", "note": "non-zero valueBalance without Sapling spends/outputs must be rejected"}));
+    run.sample(json!({"mode": "bytes", "base": "v6@Nu6_3/in0,out0,sp0,so0,or1,ir0", "mutation": "Branch=0xc2d6d0b4", "note": "v6 Orchard bundle under a pre-NU6.3 branch id must be rejected"}));
+    phase("field_lattices", &run);
+
+    // ---- arbitrary bytes: truncation, extension, byte rewrites --------------------------------
+    let mut byte_bases: Vec<Base> = Vec::new();
+    for (ver, branch) in &rep_pairs {
+        let mut shapes = vec![Shape::base(1, 1, 1, 1, 1, 1), Shape::base(0, 0, 0, 0, 0, 0)];
+        if thorough {
+            shapes.push(Shape::base(2, 2, 2, 2, 2, 2));
+        }
+        if ver.has_sapling() {
+            shapes.extend([Shape::base(0, 0, 1, 0, 0, 0), Shape::base(0, 0, 0, 1, 0, 0), Shape { distinct_anchors: true, ..Shape::base(1, 0, 2, 0, 0, 0) }]);
+        }
+        if ver.has_orchard() {
+            shapes.push(Shape::base(0, 0, 0, 0, 1, 0));
+        }
+        if ver.has_ironwood() {
+            shapes.push(Shape::base(0, 0, 0, 0, 0, 1));
+        }
+        shapes.push(Shape { in_script: 253, out_script: 252, ..Shape::base(1, 1, 0, 0, 0, 0) });
+        for sh in shapes {
+            let b = base_of(*ver, *branch, &sh);
+            if !byte_bases.iter().any(|x| x.enc == b.enc && x.ext_branch == b.ext_branch) {
+                byte_bases.push(b);
+            }
+        }
+    }
+    let vecs = vectors();
+    run.require(vecs.iter().all(|v| !v.spans.is_empty()), "a published vector is not reproduced by the reference parser/writer");
+    run.section("vectors", json!(vecs.iter().map(|v| json!({"id": v.id, "bytes": v.enc.len()})).collect::<Vec<_>>()));
+    // every vector must itself be accepted and round-trip; then its structured-field lattices
+    vecs.par_iter().for_each(|v| {
+        sweep(&run, "tx", "bytes", &v.id, v.ext_branch, &v.enc, vec![("self".into(), Mut::Whole(v.enc.clone()))]);
+        sweep(&run, "tx", "bytes", &v.id, v.ext_branch, &v.enc, field_mutants(&v.enc, &v.spans, true));
+    });
+    phase("vectors_field_lattices", &run);
+    let n_lattice_bytes = byte_bases.len();
+    byte_bases.extend(vecs);
+    run.section("byte_level_bases", json!({"lattice": n_lattice_bytes, "vectors": byte_bases.len() - n_lattice_bytes, "all_byte_positions": thorough}));
+    let cap2 = args.tier.pick(50.0, 540.0);
+    byte_bases.par_iter().for_each(|b| {
+        if run.elapsed() > cap2 {
+            skipped.fetch_add(1, std::sync::atomic::Ordering::Relaxed);
+            return;
+        }
+        // thorough: every truncation length and every byte position of lattice bases and of the
+        // v5 / tx_read_write vectors; otherwise the structured positions (see `byte_positions`)
+        let all = thorough && !(b.id.starts_with("vec:zip143") || b.id.starts_with("vec:zip243"));
+        let positions = byte_positions(&b.spans, b.enc.len(), all);
+        let mut cases = length_mutants(&b.enc, &positions);
+        cases.extend(byte_mutants(&b.enc, &positions));
+        sweep(&run, "tx", "bytes", &b.id, b.ext_branch, &b.enc, cases);
+    });
+    let sk2 = skipped.load(std::sync::atomic::Ordering::Relaxed) - sk;
+    if sk2 > 0 {
+        run.cap_hit(&format!("wall cap {cap2}s: byte-level mutation skipped for {sk2}/{} bases", byte_bases.len()));
+    }
+    phase("byte_level", &run);
+
+    // ---- block headers ------------------------------------------------------------------------
+    let hdrs = header_lattice(&[0, 1, 252, 253, 1344]);
+    run.section("header_lattice", json!(hdrs.len()));
+    let cases: Vec<Mutant> = hdrs.iter().enumerate().map(|(i, h)| (format!("hdr[{i}]"), Mut::Whole(header::ref_write_header(h)))).collect();
+    sweep(&run, "hdr", "hdr-wf", "hdr", 0, &[], cases);
+    for sl in [0usize, 1, 252, 253, 1344] {
+        let hb = header::ref_write_header(&header::Hdr { version: 4, prev: pool::fill32("hdr-prev", 0), merkle: pool::fill32("hdr-merkle", 0), sapling_root: pool::fill32("hdr-root", 0), time: 1_600_000_000, bits: 0x1f07_ffff, nonce: pool::fill32("hdr-nonce", 0), solution: pool::fill("sol", sl, sl) });
+        let all: Vec<usize> = (0..hb.len()).collect();
+        let mut m = length_mutants(&hb, &all);
+        m.extend(byte_mutants(&hb, &all));
+        let cs_len = compact_size(sl as u64).len();
+        let cur = sl as u64;
+        let mut vals = header::compact_values();
+        vals.extend([cur, cur + 1, cur.saturating_sub(1)]);
+        vals.sort();
+        vals.dedup();
+        for n in vals {
+            for form in [1usize, 3, 5, 9] {
+                if let Some(e) = compact_size_form(n, form) {
+                    m.push((format!("sollen=cs{form}:{n:#x}"), Mut::Whole(splice(&hb, 140, cs_len, &e))));
+                }
+            }
+        }
+        sweep(&run, "hdr", "hdr-bytes", &format!("hdrbase[sol{sl}]"), 0, &hb, m);
+    }
+    phase("headers", &run);
+    run.section("phase_seconds", json!(phases));
+
+    // ---- direct CompactSize / Optional lattice ---------------------------------------------------
+    for n in header::compact_values() {
+        for form in [1usize, 3, 5, 9] {
+            match header::check_compact(n, form) {
+                Ok(o) => {
+                    if o != "n/a" {
+                        run.eval(format!("compact:{n}:{form}").as_bytes());
+                        run.outcome(&o);
+                    }
+                }
+                Err(m) => run.fail("compact", format!("compact:{n:#x}/form{form}"), m, json!({"n": n.to_string(), "form": form})),
+            }
+        }
+    }
+    for tag in 0..=255u8 {
+        run.eval(format!("optional:{tag}").as_bytes());
+        match header::check_optional(tag) {
+            Ok(o) => run.outcome(&o),
+            Err(m) => run.fail("optional", format!("optional:{tag}"), m, json!({"tag": tag})),
+        }
+    }
+
+    run.require(run.outcomes_distinct() >= 12 || run.failure_count() > 0, "fewer than 12 distinct outcomes (accept / reject classes) observed");
+    run.finish(&replay)
 }
